@@ -89,6 +89,7 @@ Next == \E t \in Threads : \/ Acquire(t)
                            \/ Release(t)
 
 Spec == Init /\ [][Next]_vars
+FairSpec == Spec /\ WF_vars(Next)
 
 -----------------------------------------------------------------------------
 TypeOK ==
